@@ -335,7 +335,7 @@ def run(tier, seed):
             break
         mism += len(f)
         for j in f[:2]:
-            rep.violation("cached-property:model-mismatch", {"broken": "correspondence impl<->Model/CachedProperty.v (ptrace), per-action snapshots", "case": sh[j][:4000]}, no_input=not fails)
+            rep.violation("cached-property:model-mismatch", {"broken": "correspondence impl<->Model/CachedProperty.v (ptrace), per-action snapshots", "case": sh[j][:4000]}, no_input=not rep.has_failing_input())
     rep.cov["traces_validated_against_impl"] = len(texts)
     rep.notes["model_mismatches"] = mism
     # directed: a subclass overrides the property and builds on the parent's through super(): one computation of each,
